@@ -146,6 +146,12 @@ func umapPool(r *vlib.R, capv int) (*keyPool, int) {
 		}
 	}
 	p.other = append(p.other, hugeA, hugeB)
+	for _, k := range aliasFamily(r)[:6] {
+		if k != 0 && !used[k] {
+			used[k] = true
+			p.other = append(p.other, k)
+		}
+	}
 	p.finish()
 	return p, n
 }
@@ -346,6 +352,12 @@ func segPool[V any](r *vlib.R, m *cache.SegmentUInt64Map[V]) *keyPool {
 		}
 	}
 	p.other = append(p.other, hugeA, hugeB)
+	for _, k := range aliasFamily(r)[:6] {
+		if k != 0 && !used[k] {
+			used[k] = true
+			p.other = append(p.other, k)
+		}
+	}
 	p.finish()
 	return p
 }
@@ -559,9 +571,10 @@ func genLim(r *vlib.R, emit func(string)) {
 	// rate 0 = burst 0 (every bucket empty from the start), 1 = one query
 	// empties it, 10 = the usual case
 	rate := vlib.Pick(r, []int{0, 1, 1, 10})
-	emit(fmt.Sprintf("lim new %d %d", r.Intn(7), rate))
+	emit(fmt.Sprintf("lim new %d %d", vlib.Pick(r, []int{r.Intn(7), r.Intn(7), 30, 40}), rate))
 	pool := []uint64{0, 1, 2, 3, hugeB}
-	for len(pool) < 12 {
+	pool = append(pool, aliasFamily(r)...)
+	for len(pool) < 20 {
 		pool = append(pool, r.U64())
 	}
 	spendAll := r.Chance(1, 3) // every client spends its burst right away
@@ -698,6 +711,48 @@ func genSparse(r *vlib.R, emit func(string)) {
 		}
 		clearAll()
 	}
+}
+
+// aliasFamily: keys that collide under any narrowing of the 64-bit key (taking
+// the low or high half, xor- or add-folding the halves, swapping them): built
+// from two 32-bit values a, b.
+func aliasFamily(r *vlib.R) []uint64 {
+	a, b := r.U64()&0xffffffff, r.U64()&0xffffffff
+	if r.Bool() {
+		a, b = uint64(1+r.Intn(4)), uint64(1+r.Intn(4))
+	}
+	return []uint64{a, b, a << 32, b << 32, a<<32 | b, b<<32 | a, a<<32 | a, a ^ b, (a + b) & 0xffffffff, 1, 1 << 32, 1<<32 | 1}
+}
+
+// genAns: the answer caches (PositiveCache / NegativeCache): live and already
+// expired entries stored over each other, looked up, removed.
+func genAns(r *vlib.R, emit func(string)) {
+	emit(fmt.Sprintf("ans new %s %d", vlib.Pick(r, []string{"pos", "neg"}), 64))
+	keys := []uint64{0, 1, 2, r.U64(), r.U64(), hugeB}
+	tok := uint64(2)
+	nops := r.Range(15, 50)
+	for i := 0; i < nops; i++ {
+		k := vlib.Pick(r, keys)
+		switch x := r.Intn(10); {
+		case x < 4:
+			tok += 2
+			t := tok
+			if r.Chance(1, 3) {
+				t++ // an entry that is already expired when stored
+			}
+			emit(fmt.Sprintf("ans set %d %d", k, t))
+			if r.Chance(2, 3) {
+				emit(fmt.Sprintf("ans get %d", k))
+			}
+		case x < 8:
+			emit(fmt.Sprintf("ans get %d", k))
+		case x < 9:
+			emit(fmt.Sprintf("ans remove %d", k))
+		default:
+			emit("ans len")
+		}
+	}
+	emit("ans len")
 }
 
 // genStall: "writers never wait on a global lock" scenarios (see stall.go).
@@ -996,6 +1051,8 @@ func gen(r *vlib.R, n int, tier string, emit0 func(string)) {
 	genStall(r, tier, emit)
 	genSparse(r, emit)
 	genSparse(r, emit)
+	genAns(r, emit)
+	genAns(r, emit)
 	genLimChurn(r, tier, emit)
 	genUmapLong(r, emit)
 	genSegLong(r, emit)
@@ -1014,6 +1071,8 @@ func gen(r *vlib.R, n int, tier string, emit0 func(string)) {
 			genUmapLong(r, emit)
 		case x >= 97:
 			genSparse(r, emit)
+		case x >= 94 && x < 95:
+			genAns(r, emit)
 		case x >= 95:
 			genSegLong(r, emit)
 		case x < 50:
